@@ -46,7 +46,7 @@ ASSUMPTIONS = [
     "names written to a real directory are limited to what the scratch file system accepts (255 bytes per component)",
     "axis maps for the inverse check have segment slopes in [1e-3, 1e3] and coordinates within +-3e6 (float conditioning)",
 ]
-WALL_BUDGET = {"quick": 900, "thorough": 3 * 3600}
+WALL_BUDGET = {"quick": 2400, "thorough": 4 * 3600}
 
 
 # ---------------------------------------------------------------------------
@@ -1967,6 +1967,8 @@ _MUST_OCCUR = [
 
 
 def finish(total, tier, seed):
+    if total.evals == 0:
+        return  # nothing ran (watchdog); the runner reports that itself
     missing = [l for l in _MUST_OCCUR if total.labels.get(l, 0) == 0]
     if missing:
         raise HarnessError("generator classes with zero hits: %s" % ", ".join(missing))
